@@ -373,6 +373,9 @@ func (x *Exec) get(fr *frame, v ssa.Value) Value {
 		return v
 	}
 	if r, ok := fr.locals[v]; ok {
+		if pz, bad := r.(poisonV); bad {
+			panic(x.errf("register %s read after an if-conversion whose arms left it with unmergeable values (%s)", v.Name(), pz.why))
+		}
 		return r
 	}
 	panic(x.errf("no value for %s (%T) in %s", v.Name(), v, fr.fn))
@@ -987,9 +990,9 @@ func (x *Exec) trySpeculate(fr *frame, blk *ssa.BasicBlock, c *Term, stop *ssa.B
 		}
 		m, ok := x.mergeValue(c, va, vb)
 		if !ok {
-			// not expressible as a value: only acceptable if the register is dead at the join, which we cannot tell
-			abort(fmt.Sprintf("unmergeable register values %T / %T", va, vb))
-			return nil, nil, false
+			// not expressible as one value: fine if the register is dead at the join (the usual case: temporaries of
+			// the arms); poisoned so that a later read is an engine error instead of a wrong value
+			m = poisonV{fmt.Sprintf("%T / %T", va, vb)}
 		}
 		mergedLocals[k] = m
 	}
@@ -1004,8 +1007,7 @@ func (x *Exec) trySpeculate(fr *frame, blk *ssa.BasicBlock, c *Term, stop *ssa.B
 		}
 		m, ok := x.mergeValue(c, old, vb)
 		if !ok {
-			abort(fmt.Sprintf("unmergeable register values %T / %T", old, vb))
-			return nil, nil, false
+			m = poisonV{fmt.Sprintf("%T / %T", old, vb)}
 		}
 		mergedLocals[k] = m
 	}
@@ -1028,6 +1030,9 @@ func (x *Exec) trySpeculate(fr *frame, blk *ssa.BasicBlock, c *Term, stop *ssa.B
 	x.setPhis(fr, join, mphis)
 	return nil, join, true
 }
+
+// poisonV marks a register whose value after an if-conversion is not representable (see trySpeculate).
+type poisonV struct{ why string }
 
 // sameLocal: cheap identity test of two register values (pointer-equal terms, equal scalars).
 func sameLocal(a, b Value) (eq bool) {
